@@ -17,6 +17,15 @@ CLAIMS = {
  'C02': ('pzv-scheme', 'model-based testing of random straight-line programs (plaintext model of every ciphertext column as exact torus values)',
          'Random programs (1..12 steps) of add/sub/negate/copy/rotate/(X^k-1)/shift/normalise incl. all in-place forms over a register file of GLWE ciphertexts with independent sizes, a rank-0 operand and a cross-radix register; every column of the destination is compared after every step with the operation applied to the operands\' exact values (tolerance: exactly what truncated limbs can carry / one unit for rounding shifts), plus the phase under a generated key.',
          'Trusted: the dyadic value model. Right shifts are modelled on the unreduced value of the limb vector, as the library defines them.', 'DESIGN.md section 6 C02'),
+ 'C13': ('pzv-bin', 'structure-aware generated search over the compiled tables (hook H1): exhaustive structural validity, directed edge coverage, exhaustive sub-cubes, random pairs against u32 semantics',
+         'All 290 bit-circuits of the 11 compiled u32 circuits are read through hook H1 and evaluated by a clear evaluator that mirrors eval_level: every table is checked structurally (exhaustive), every edge of every table is exercised by directed inputs (100 % edge coverage measured), all 2^16 low-byte pairs under several high patterns, all shift amounts, carry chains and sign boundaries are enumerated and millions of random/boundary pairs compared with Rust u32 semantics.',
+         'Not a proof for all 2^64 pairs (the statement asks for a symbolic decision, which is outside this technique family): an error confined to inputs sharing every table edge with correct sampled completions would escape. Trusted: the clear evaluator (cross-checked against the homomorphic one in C15).', 'DESIGN.md section 6 C13'),
+ 'C15': ('pzv-bin', 'property-based testing of encrypted word operations and short programs against plain u32 semantics (decrypt with the clear key)',
+         'Word operations (11 circuits) on prepared operands and on operands obtained through circuit bootstrapping, chains with re-preparation, sext / splice / get_bit / zero_byte / partial preparation at every index class, on three backends with the shipped parameter set; results are decrypted and compared with Rust.',
+         'One parameter set (the shipped test layout N=256, n_lwe=77, rank 2); noise growth is observed through correctness of the decrypted words only.', 'DESIGN.md section 6 C15'),
+ 'C20': ('pzv-bin', 'differential testing across thread counts and concurrent workloads (ciphertext byte equality), schedules perturbed by generated thread counts and oversubscription',
+         'Every *_multi_thread word op and partial preparation is compared byte for byte with its single-threaded run for generated thread counts (not dividing / exceeding the work items) and (start, count) partitions; several harness threads sharing one Module and prepared keys must reproduce their solo results.',
+         'Interleavings are sampled, not enumerated; no yield-injection hook.', 'DESIGN.md section 6 C20'),
  'C17': ('pzv-hal', 'AddressSanitizer-instrumented property-based execution of the operation registry (exact-size heap blocks) + guard-margin canaries',
          'Every registry operation on four backends (N from 1, odd limb counts, multi-column, size < capacity, roomy and exact-size scratch) plus histories of resize / reallocate / corrupted deserialisation followed by use run in an AddressSanitizer build in which each operand and scratch window is its own exact-size heap block; any sanitizer report, guard-region damage or panic is a violation (death callback writes the replay).',
          'ASan instruments Rust code and intrinsics of harness and poulpy crates, not std and not global assembly (covered by patterned guard margins); uninitialised reads are only approximated by C11/C12; scheme-level layers are exercised through their own properties in the checked profile.', 'DESIGN.md section 6 C17'),
@@ -69,6 +78,7 @@ m = {
  'engines': [
    {'name': 'pzv-scheme', 'path': 'harness/scheme', 'serves_properties': ['C01','C02','C03','C04','C05','C06','C19'], 'kind_free_text': 'proptest-driven binary on poulpy-core with exact phase recomputation from the clear secret'},
    {'name': 'pzv-serde', 'path': 'harness/serde', 'serves_properties': ['C18'], 'kind_free_text': 'fault-injecting property tests over all serialisable layouts'},
+   {'name': 'pzv-bin', 'path': 'harness/binfhe', 'serves_properties': ['C13','C14','C15','C20'], 'kind_free_text': 'clear BDD evaluator + homomorphic word operations on the shipped parameter set'},
    {'name': 'pzv-hal', 'path': 'harness/hal', 'serves_properties': ['C07','C08','C09','C10','C11','C12','C17'], 'kind_free_text': 'proptest-driven binary over an operation registry of the HAL, four backends, guarded buffers, exact integer/rational oracles'},
  ],
  'checks': checks,
